@@ -329,7 +329,9 @@ func runStoreScenario(sc *storeScenario, out *bufio.Writer) (hung bool) {
 				count := int(num(op[2]))
 				pat := int(num(op[3]))
 				expr := ""
-				if pat > 0 {
+				if pat > 256 {
+					expr = fmt.Sprintf("\\x%02x", pat-257) // not anchored: the byte anywhere in the key
+				} else if pat > 0 {
 					expr = fmt.Sprintf("^\\x%02x", pat-1)
 				}
 				var keys []string
